@@ -156,12 +156,76 @@ class LimitClock:
         return self.t
 
 
+class _Enough(Exception):
+    pass
+
+
+class QueueTap:
+    """proxy of the class queue that logs every work packet handed out: [label, strategies, inferral, expanded?]"""
+
+    def __init__(self, q, log, cap=None):
+        self._q, self._log, self._cap = q, log, cap
+
+    def __iter__(self):
+        return self
+
+    def __next__(self):
+        if self._cap is not None and len(self._log) >= self._cap:
+            raise _Enough()
+        item = next(self._q)
+        self._log.append([item[0], tuple(str(x) for x in item[1]), bool(item[2]), False])
+        return item
+
+    def __getattr__(self, name):
+        return getattr(self._q, name)
+
+
+def tap(s, cap=None):
+    """log the packets the searcher takes from its queue and whether each one was expanded"""
+    log = []
+    s.classqueue = QueueTap(s.classqueue, log, cap)
+    orig = s._expand
+
+    def expand(comb_class, label, strategies, inferral):
+        if log and log[-1][0] == label:
+            log[-1][3] = True
+        return orig(comb_class, label, strategies, inferral)
+
+    s._expand = expand
+    return log
+
+
+def reference_packets(cfg, cap=600):
+    """the work packets of an uninterrupted search of the same configuration (same tick clock, no limit)"""
+    root, pack, db = specrun.build(cfg)
+    s = CombinatorialSpecificationSearcher(root, pack, ruledb=db, expand_verified=cfg["expand_verified"])
+    specrun.quiet()
+    log = tap(s, cap)
+    real = css_mod.time
+    css_mod.time = LimitClock()
+    st = random.getstate()
+    random.seed(cfg["seed"])
+    try:
+        s.auto_search(perc=cfg["perc"])
+    except (_Enough, SpecificationNotFound):
+        pass
+    except Exception:  # noqa: BLE001  (faults of an uninterrupted search belong to C01/C04)
+        pass
+    finally:
+        css_mod.time = real
+        random.setstate(st)
+        specrun.quiet()
+    return log
+
+
 def time_limit_runs(cfg, limits):
     problems, runs = [], 0
+    ref = reference_packets(cfg)
     for limit in limits:
         root, pack, db = specrun.build(cfg)
         s = CombinatorialSpecificationSearcher(root, pack, ruledb=db, expand_verified=cfg["expand_verified"])
         specrun.quiet()
+        packets = tap(s)
         real = css_mod.time
         css_mod.time = LimitClock()
         spec, tries, interrupted = None, 0, 0
@@ -192,6 +256,13 @@ def time_limit_runs(cfg, limits):
             random.setstate(st)
             specrun.quiet()
         runs += 1
+        # "continues from where it stopped": the packets taken from the queue over all the calls, and whether each was
+        # expanded, are those of the uninterrupted search (the queue's order depends on the applied packets only)
+        m = min(len(ref), len(packets))
+        if interrupted and packets[:m] != ref[:m]:
+            k = next(i for i in range(m) if packets[i] != ref[i])
+            problems.append(("interrupted-search-does-not-continue-where-it-stopped",
+                             f"limit={limit}, interrupted {interrupted} times: packet {k} is {packets[k]} but the uninterrupted search has {ref[k]}"))
         if spec is None:
             continue
         N = 6
